@@ -26,6 +26,10 @@ class ShimCompiler(SQLiteCompiler):
         return "SELECT * FROM (" + grouping.element._compiler_dispatch(self, **kwargs) + ")"
 
 
+class DuplicateIdentifiers(Exception):
+    """Two column tags of one relation map to the same SQL identifier."""
+
+
 class DB:
     def __init__(self, shim: bool = True, reverse: bool = False):
         self.sa = sqlalchemy.create_engine("sqlite://")
@@ -64,14 +68,21 @@ class DB:
     def run(self, rel, engine=None):
         engine = engine if engine is not None else rel.engine
         ex = engine.to_executable(rel)
-        return self.fetch(ex, rel.columns)
+        return self.fetch(ex, rel.columns, engine)
 
-    def fetch(self, executable, columns):
+    def fetch(self, executable, columns, engine=None):
+        """Rows as dict tag -> value.  Result columns are looked up under the identifier the engine
+        itself assigns to each tag (`sql.Engine.get_identifier`; by default the qualified name); two
+        tags of one relation must not share an identifier, or the result would not have one value
+        per column."""
         cols = list(columns)
+        ident = {t: (engine.get_identifier(t) if engine is not None and hasattr(engine, "get_identifier") else t.qualified_name) for t in cols}
+        if len(set(ident.values())) < len(ident):
+            raise DuplicateIdentifiers(f"columns {sorted(map(str, cols))} are given the SQL identifiers {sorted(ident.values())}")
         self.statements += 1
         out = []
         for r in self.conn.execute(executable).mappings():
-            out.append({t: r[t.qualified_name] for t in cols})
+            out.append({t: r[ident[t]] for t in cols})
         return out
 
     def text(self, executable) -> str:
